@@ -745,7 +745,10 @@ fn derive(r: &mut Rng, kind: usize, ty: &Ty, fl: usize, lv: &[LV], base: &Node, 
                 let cap = if *kw == 1 && *signed { 127 } else { 250 }; if order.len() > cap { return None }
                 let child_nullable = true;
                 let nvals: Vec<LV> = order.iter().map(|o| match o { Some(i) => vals[*i].clone(), None => if vals.is_empty() || r.bool() { child_or_default(&LV::Null, v, child_nullable) } else { r.pick(&vals).clone() } }).collect();
-                let nkeys: Vec<LV> = keys.iter().map(|k| match k { LV::Int(z) => { let i = usize::try_from(z).unwrap(); let pos: Vec<usize> = order.iter().enumerate().filter(|(_, o)| **o == Some(i)).map(|(p, _)| p).collect(); LV::Int((*r.pick(&pos)).into()) } _ => LV::Null }).collect();
+                // a logically null slot is either a null key or a valid key that selects a NULL dictionary value
+                let mut nvals = nvals; let null_entry = if r.bool() && nvals.len() < cap { nvals.push(LV::Null); Some(nvals.len() - 1) } else { nvals.iter().position(|x| *x == LV::Null) };
+                let nkeys: Vec<LV> = keys.iter().map(|k| match k { LV::Int(z) => { let i = usize::try_from(z).unwrap(); let pos: Vec<usize> = order.iter().enumerate().filter(|(_, o)| **o == Some(i)).map(|(p, _)| p).collect(); LV::Int((*r.pick(&pos)).into()) }
+                    _ => match null_entry { Some(e) if r.bool() => LV::Int(e.into()), _ => LV::Null } }).collect();
                 (dump(dict_from(*kw, *signed, &nkeys, from_lv(v, fl, &nvals)?)?.as_ref())?, "dict-perm") }
             Ty::Ree { rw, v } => { // runs split differently, extra runs before / after, then slice
                 let k1 = r.below(4); let k2 = r.below(3); let mut all = junk_lv(r, ty, lv, k1); all.extend(lv.iter().cloned()); all.extend(junk_lv(r, ty, lv, k2));
@@ -926,7 +929,7 @@ fn emit_col_cases(r: &mut Rng, col: &Col, emit: &mut dyn FnMut(Case), tier_eq_pa
         emit(Case::new("c02.eq", args, models, format!("eq {th} {an}/{bn} l{level}")));
     }
     // (3) a perturbed column / another type must NOT be equal
-    for _ in 0..2 {
+    for _ in 0..4 {
         let Some((lv2, what)) = perturb(r, &col.ty, &col.lv) else { continue };
         let Some(a2) = from_lv(&col.ty, fl, &lv2) else { continue }; let Some(n2) = dump(a2.as_ref()) else { continue };
         let (na, pa, an) = r.pick(&col.reals).clone();
@@ -957,9 +960,16 @@ fn emit_col_cases(r: &mut Rng, col: &Col, emit: &mut dyn FnMut(Case), tier_eq_pa
 
 fn emit_kernel_cases(r: &mut Rng, x: &Col, y: &Col, s: &Col, x2: &Col, y2: &Col, emit: &mut dyn FnMut(Case), nk: usize) {
     let th = ty_head(&x.ty); let fl = x.fl; let len = x.lv.len();
+    // KNOWN-FINDING candidate (zero-width arrays): take / filter / interleave on FixedSizeBinary(0) and
+    // FixedSizeList(_, 0) derive the result length from values.len() / 0 (0, or the validity's length when there
+    // is one), at any nesting depth (struct field, list child, run values): results depend on whether a validity
+    // buffer is present, or the kernel panics on the inconsistent child length.  No kernel case for such types.
+    if contains_ty(&x.ty, &|t| matches!(t, Ty::FixedList { n: 0, .. } | Ty::FixedBin(0))) { return }
     let ks = kernels_for(&x.ty, fl);
-    for _ in 0..nk {
-        let k = *r.pick(&ks);
+    // null-related kernels always run on types whose nulls live in dictionary / run values
+    let mut forced: Vec<usize> = if contains_ty(&x.ty, &|t| matches!(t, Ty::Dict { .. } | Ty::Ree { .. })) { vec![22, 23, 61] } else { vec![*r.pick(&[22, 23])] };
+    for _ in 0..nk + forced.len() {
+        let k = match forced.pop() { Some(k) => k, None => *r.pick(&ks) };
         let mut p = kernel_params(r, k, len, y.lv.len());
         // KNOWN-FINDING candidate (cmp on an EMPTY slice of a RunEndEncoded array taken at a non-zero offset):
         // ree_physical_indices / expand_from_runs compute run_end - pos with pos = offset > first run end
@@ -967,18 +977,25 @@ fn emit_kernel_cases(r: &mut Rng, x: &Col, y: &Col, s: &Col, x2: &Col, y2: &Col,
         // KNOWN-FINDING candidate (substring): utf-8 boundaries are checked on the payload of NULL slots too, so
         // Ok/Err depends on the bytes under a null; columns with such a null slot are not given to substring
         if k == 54 && x.reals.iter().any(|(n, _, _)| null_slot_multibyte(n)) { continue }
+        // (on a dictionary the VALUES are processed: unused entries and entries behind null keys decide as well)
+        if k == 54 && contains_ty(&x.ty, &|t| matches!(t, Ty::Dict { .. })) { continue }
         // KNOWN-FINDING candidate (cast binary -> string, safe = false): try_from_binary / to_string_view validate
         // the bytes of null slots (and unreferenced bytes), so the error outcome depends on garbage under nulls
         if k == 45 && contains_ty(&x.ty, &|t| matches!(t, Ty::Bin { utf8: false, .. } | Ty::View { utf8: false } | Ty::FixedBin(_))) { p[1] = 1 }
         // KNOWN-FINDING candidate (cast of a dictionary, safe = false): the dictionary VALUES are cast, unused
         // entries and entries only reachable through null keys included, so they decide the error outcome
         if k == 45 && contains_ty(&x.ty, &|t| matches!(t, Ty::Dict { .. })) { p[1] = 1 }
+        // (temporal values that cannot be rendered make the cast to a string fail even with safe = true)
+        if k == 45 && fl >= 3 && contains_ty(&x.ty, &|t| matches!(t, Ty::Dict { .. })) { continue }
         // KNOWN-FINDING candidate (cast FixedSizeList(_, 1) -> non-list): cast_single_element_fixed_size_list_to_values
         // casts values() and drops the list's validity: null lists expose the child payload under them
-        if k == 45 && matches!(x.ty, Ty::FixedList { n: 1, .. }) { continue }
+        if k == 45 && contains_ty(&x.ty, &|t| matches!(t, Ty::FixedList { n: 1, .. })) { continue }
         // KNOWN-FINDING candidate (concat of List<RunEndEncoded>): when no list references a child value the
         // child slices are all empty and concat fails with "concat requires input of at least one array"
-        if matches!(k, 2 | 3 | 5 | 64 | 65) && contains_ty(&x.ty, &|t| matches!(t, Ty::List { c, .. } | Ty::FixedList { c, .. } | Ty::ListView { c, .. } if matches!(c.as_ref(), Ty::Ree { .. }))) { continue }
+        // (same with a dictionary / struct parent: any RunEndEncoded array that is a CHILD may be empty)
+        let ree_child = |t: &Ty| -> bool { match t { Ty::List { c, .. } | Ty::FixedList { c, .. } | Ty::ListView { c, .. } => contains_ty(c, &|u| matches!(u, Ty::Ree { .. })),
+            Ty::Dict { v, .. } | Ty::Ree { v, .. } => contains_ty(v, &|u| matches!(u, Ty::Ree { .. })), Ty::Struct(fs) => fs.iter().any(|(_, u)| contains_ty(u, &|w| matches!(w, Ty::Ree { .. }))), _ => false } };
+        if matches!(k, 2 | 3 | 5 | 59 | 64 | 65) && contains_ty(&x.ty, &ree_child) { continue }
         // ---- congruence over the realisations
         let second: Option<&Col> = if arity(k) == 2 { Some(if k == 38 || k == 39 { s } else { y }) } else { None };
         let nreal = match second { Some(c) => x.reals.len().min(c.reals.len()), None => x.reals.len() };
@@ -1052,11 +1069,16 @@ fn gen_logical_ty(r: &mut Rng) -> (Ty, usize) {
 
 pub fn generate(tier: &str, r: &mut Rng, emit: &mut dyn FnMut(Case)) {
     let thorough = tier == "thorough";
-    let iters = if thorough { 2600 } else { 260 };
+    let iters = if thorough { 5000 } else { 600 };
     for it in 0..iters {
         // scenario A: a random PHYSICAL layout of a random type (c09 generator); scenario B: a random LOGICAL column
         let physical = it % 5 < 2;
-        let (ty, fl) = if physical { let mut t = c09::gen_ty(r, 2); while has_union(&t) { t = c09::gen_ty(r, 2) } (t, if r.chance(1, 4) { r.below(5) } else { 0 }) } else { gen_logical_ty(r) };
+        // (a non-nullable field whose nulls would live elsewhere — Null type, dictionary / run VALUES — is not
+        //  generated: the C09 layout generator only constrains the field's own validity buffer, and such a layout,
+        //  although accepted by ArrayData validation, is rejected by the typed constructors kernels rebuild with)
+        let hidden_nulls = |f: &Ty| matches!(f, Ty::Null | Ty::Dict { .. } | Ty::Ree { .. });
+        let degenerate = |t: &Ty| contains_ty(t, &|u| match u { Ty::List { nullable: false, c, .. } | Ty::FixedList { nullable: false, c, .. } | Ty::ListView { nullable: false, c, .. } => hidden_nulls(c.as_ref()), Ty::Struct(fs) => fs.iter().any(|(nb, f)| !*nb && hidden_nulls(f)), _ => false });
+        let (ty, fl) = if physical { let mut t = c09::gen_ty(r, 2); while has_union(&t) || degenerate(&t) { t = c09::gen_ty(r, 2) } (t, if r.chance(1, 4) { r.below(5) } else { 0 }) } else { gen_logical_ty(r) };
         let leafy = !contains_ty(&ty, &|t| matches!(t, Ty::List { .. } | Ty::ListView { .. } | Ty::FixedList { .. } | Ty::Struct(_)));
         let len = pick_len(r, leafy);
         let want = 5 + r.below(2);
@@ -1071,7 +1093,7 @@ pub fn generate(tier: &str, r: &mut Rng, emit: &mut dyn FnMut(Case)) {
         let l2 = r.below(6);
         let Some(x2) = mk(r, l2) else { continue };
         let Some(y2) = mk(r, l2) else { continue };
-        emit_kernel_cases(r, &x, &y, &s, &x2, &y2, emit, 5);
+        emit_kernel_cases(r, &x, &y, &s, &x2, &y2, emit, 8);
     }
     // builders: readback and physical form
     let nb = if thorough { 3000 } else { 400 };
